@@ -98,10 +98,11 @@ partial def loop (h : IO.FS.Stream) (out : IO.FS.Stream) (st : Stats) (idx : Nat
       match v.region with
       | some r => st := { st with regions := st.regions.insert r (st.regions.getD r 0 + 1) }
       | none => pure ()
-    if !v.specModel then st := { st with specModelFail := st.specModelFail + 1 }
+    -- a predicate that fails on the model only (the implementation satisfies it) means model and theorems disagree
+    if !v.specModel && v.spec then st := { st with specModelFail := st.specModelFail + 1 }
     if st.samples.size < 3 && v.nontrivial then
       st := { st with samples := st.samples.push (Json.mkObj [("d", d), ("i", i), ("o", o)]) }
-    if (!v.agree || !v.spec || !v.specModel) && st.printed < maxPrinted then
+    if (!v.agree || !v.spec || (!v.specModel && v.spec)) && st.printed < maxPrinted then
       let kind := if !v.spec then "specfail" else if !v.agree then "disagree" else "specmodelfail"
       out.putStrLn (Json.mkObj [("idx", idx), ("kind", kind), ("d", d), ("i", i), ("o", o), ("m", v.model),
         ("agree", v.agree), ("spec", v.spec), ("region", match v.region with | some r => Json.str r | none => Json.null),
